@@ -2,6 +2,7 @@ import RscelModel.Driver.Wire
 import RscelModel.Model.Conv
 import RscelModel.Model.WF
 import RscelModel.Driver.AstJson
+import RscelModel.Driver.TimeWire
 open Rscel
 
 def handle (line : String) : String :=
@@ -55,6 +56,9 @@ def handle (line : String) : String :=
       | some (.code c, _) => wfDiag c
       | _ => "bad-request"
     else
+    match Wire.handleTimeOp cmd args with
+    | some r => r
+    | none =>
     match Wire.handleValOp cmd args with
     | some r => r
     | none => "bad-request"
